@@ -266,6 +266,17 @@ func Digest(v uint64) {
 	st.TraceHash = mix(st.TraceHash, mix(uint64(turn), v))
 }
 
+var events int64
+
+// Stamp returns the next value of a global event sequence number (used to
+// stamp invoke/return events of recorded histories; unique, totally ordered).
+//
+//go:norace
+func Stamp() int64 {
+	events++
+	return events
+}
+
 // Current returns the client holding the turn (-1 outside a run).
 //
 //go:norace
